@@ -756,6 +756,44 @@ func (c *cluster) checkConverged() {
 				return
 			}
 		}
+		// Raft's own voting rules may make an election impossible although a majority
+		// of the committed configuration is healthy: some healthy node still acts on an
+		// uncommitted configuration, and the node whose log is most up to date cannot
+		// campaign or cannot be voted for. A viable candidate is a healthy node that is a
+		// voter of its own latest configuration and whose log is at least as up to date
+		// as the logs of a quorum of that configuration's healthy voters. Without one
+		// the premise of the liveness claim is not met (nothing the library could do).
+		upToDate := func(a, b *Raft) bool { // a's log at least as up to date as b's
+			return a.lastLogTerm > b.lastLogTerm || (a.lastLogTerm == b.lastLogTerm && a.lastLogIndex >= b.lastLogIndex)
+		}
+		viable := false
+		for _, id := range c.upIDs() {
+			if !ok(id) {
+				continue
+			}
+			cr := c.nodes[id].r
+			if me, in := cr.configs.Latest.Nodes[id]; !in || !me.Voter {
+				continue
+			}
+			lv, grant := 0, 0
+			for vid, nd := range cr.configs.Latest.Nodes {
+				if !nd.Voter {
+					continue
+				}
+				lv++
+				if v := c.up(vid); v != nil && ok(vid) && upToDate(cr, v.r) {
+					grant++
+				}
+			}
+			if grant >= lv/2+1 {
+				viable = true
+			}
+		}
+		if !viable {
+			c.stats.class("conv-no-viable-candidate")
+			c.tracef("checkconv: no healthy node can collect a quorum under the voting rules")
+			return
+		}
 		c.fail("converge", "no-leader-after-heal", "no leader among %d running voters (of %d) of %v after the network was healed for 50 virtual seconds", upVoters, voters, cfg)
 		return
 	}
